@@ -49,6 +49,9 @@ CLAIMS = {
     "C13": ("property-based testing (rapid): ordering/disjointness invariants on all files; structural-token exactness and literal tokens against a reference model",
             "Generated files incl. broken ones: tokens sorted, disjoint, non-empty, advertised types, deterministic. Against the model: attribute-name / block-type / label tokens are exactly the schema-known elements with inherited modifiers, nothing marks unknown attributes / blocks / surplus labels, value tokens stay inside known values, plain literals carry exactly their literal token.",
             "4/C13", TRUST + " Reference-step and function-name tokens are bounded (inside known values) rather than compared one by one."),
+    "C07": ("property-based testing (rapid) against a reference model of the effective schema (own dependent-body selection and overlay on the serialisable model); acceptance relation by applying candidates and re-validating",
+            "Generated schema/configuration pairs with sprinkled blank lines and half-typed names; every cursor is classified on the parser AST and the ordered candidate list is compared with the model (attributes, count/for_each, block types still declarable with the typed prefix; dependent-body label values inside completable labels). Sampled candidates are applied and the file re-validated.",
+            "4/C07", TRUST + " Exactness is judged only where error recovery cannot have reshaped the body (parse errors tolerated on the cursor line and on lone-identifier lines); `dynamic` and the any-attribute placeholder are don't-care."),
 }
 
 def main():
